@@ -324,6 +324,17 @@ def evaluate(case, stats=None):
         depths = [m for m in range(1, MAX_MESH_DEPTH + 1)
                   if H.admissible(events, recs, spec, m) is None]
         if not depths:
+            why = H.admissible(events, recs, spec, MAX_MESH_DEPTH)
+            if why[0] == "zero":
+                # no mesh at all can run this code
+                info = {"accepted": list(build.accepted),
+                        "mesh": MAX_MESH_DEPTH, "states": 0,
+                        "exhaustive": True, "statuses": statuses,
+                        "nhx": got_hx, "async": 0, "coloured": 0,
+                        "text": text}
+                return ("fail", "d:zero_depth_exchange",
+                        f"check (d) {why[1]} on every mesh: the exchange "
+                        f"can never make the halo clean", info)
             return ("discard", "no admissible mesh depth <= "
                     f"{MAX_MESH_DEPTH}")
         mesh = depths[case.get("mesh", 0) % len(depths)]
